@@ -1,6 +1,6 @@
 """C20 - stopping controllers: latch, reset completeness, budget, patience, driver loops."""
 import ast
-from ..core import RuleResult, Finding, AnalysisError, dotted, src, norm_construct, ClassInfo
+from ..core import RuleResult, Finding, AnalysisError, dotted, src, norm_construct, ClassInfo, guarded, guarded_list
 from .. import paths
 
 SCHED = 'pypose.optim.scheduler'
@@ -53,6 +53,7 @@ def method_writes(repo, ci, name, seen=None):
     return out
 
 
+@guarded
 def rule_latch(repo, tier):
     res = RuleResult('C20.LATCH', '_continual is set True only in __init__/reset and only False in step; nobody else writes it', floor=6)
     owners = set()
@@ -86,6 +87,7 @@ def rule_latch(repo, tier):
     return res
 
 
+@guarded
 def rule_reset(repo, tier):
     res = RuleResult('C20.RESET', 'for every controller with reset(): attributes written by step are re-initialised by reset', floor=2)
     for mod, cn in CONTROLLERS:
@@ -188,6 +190,7 @@ def step_paths(f, words):
     return p
 
 
+@guarded
 def rule_budget(repo, tier):
     res = RuleResult('C20.BUDGET', 'on every path of step: steps += 1 exactly once and an unconditional guard equivalent to '
                      'completed_steps >= max_steps clears the latch', floor=4)
@@ -248,6 +251,7 @@ def _mentions(e, attrs):
     return any(isinstance(n, ast.Attribute) and n.attr in attrs for n in ast.walk(e))
 
 
+@guarded
 def rule_pat(repo, tier):
     res = RuleResult('C20.PAT', 'patience_count is either incremented by one or zeroed exactly once per step, the guard '
                      '>= patience clears the latch; the rejection / tol clauses clear the latch', floor=4)
@@ -329,6 +333,7 @@ def _positive(test, truth, key):
     return truth
 
 
+@guarded
 def rule_drv(repo, tier):
     res = RuleResult('C20.DRV', 'driver loops: step the controller exactly once on every iteration path, never reset or write '
                      'it inside the loop, reset it before the loop (external controllers)', floor=3)
@@ -398,6 +403,7 @@ def _walk_tests(f):
             yield n
 
 
+@guarded
 def rule_clause(repo, tier):
     from ..expr import parities
     res = RuleResult('C20.CLAUSE', 'the documented stopping clauses have their documented form: StopOnPlateau stops as soon as the last '
